@@ -421,7 +421,9 @@ def projection(name, lab, ename, tier, seed, out):
     for rl, reg in regions:
         try:
             br = b if reg is None else CellBasis(m, ent.make(), elements=reg)
-            Dr = np.arange(N) if reg is None else br.get_dofs(elements=reg).flatten()
+            # the region's DOFs are read off the cell-to-DOF table (decided by C04), not asked from the DOF query that
+            # project() itself uses for its condensation - otherwise a query that forgets DOFs hides its own effect
+            Dr = np.arange(N) if reg is None else np.unique(b.element_dofs[:, np.asarray(m.subdomains[reg])])
         except Exception as e:
             bad('exception', f"region {rl}: {e!r}")
             continue
